@@ -50,7 +50,10 @@ def norm_attr(x, f32=False):
     if isinstance(x, np.generic):
         x = x.item()
     if isinstance(x, dict):
-        return ("map", tuple(sorted(((repr(type(k).__name__), repr(k)), norm_attr(v, f32)) for k, v in x.items())))
+        # (a dict SUBCLASS - Counter, OrderedDict, defaultdict - is a different value than a plain dict with the same items)
+        return ("map" if type(x) is dict else "map:" + type(x).__name__, tuple(sorted(((repr(type(k).__name__), repr(k)), norm_attr(v, f32)) for k, v in x.items())))
+    if isinstance(x, (set, frozenset)):
+        return ("set:" + type(x).__name__, tuple(sorted(norm_attr(v, f32) for v in x)))
     if isinstance(x, (list, tuple)):
         return ("seq", tuple(norm_attr(v, f32) for v in x))
     if isinstance(x, float):
